@@ -403,9 +403,37 @@ fn invlpgb_misc(rep: &mut Report, r: &mut Rng) {
     rep.class("invlpgb|misc");
 }
 
+/// the flush instructions declare what they touch: values kept live in registers across them stay what they were
+fn register_pressure(rep: &mut Report, r: &mut Rng) {
+    use crate::util::{pressure_expected, under_register_pressure};
+    use x86_64::instructions::tlb::{self, InvPcidCommand, Pcid};
+    macro_rules! case {
+        ($name:expr, $body:expr) => {{
+            rep.eval();
+            let seed = r.next() | 1;
+            let ((sum, _), _evs) = trapemu::trapped(|| under_register_pressure(seed, || $body));
+            if sum != pressure_expected(seed) {
+                rep.violation(&format!("{}|changes-a-register-it-does-not-declare", $name), J::obj(vec![("profile", J::s(crate::util::profile_name())), ("expected", J::hex(pressure_expected(seed))), ("got", J::hex(sum))]));
+            }
+            rep.class(&format!("register-pressure|{}", $name));
+        }};
+    }
+    let va = VirtAddr::new_truncate(r.next());
+    let pcid = Pcid::new((r.next() & 0xfff) as u16).unwrap();
+    case!("tlb::flush", tlb::flush(va));
+    case!("tlb::flush_all", tlb::flush_all());
+    case!("tlb::flush_pcid(Address)", unsafe { tlb::flush_pcid(InvPcidCommand::Address(va, pcid)) });
+    case!("tlb::flush_pcid(Single)", unsafe { tlb::flush_pcid(InvPcidCommand::Single(pcid)) });
+    case!("tlb::flush_pcid(All)", unsafe { tlb::flush_pcid(InvPcidCommand::All) });
+    case!("tlb::flush_pcid(AllExceptGlobal)", unsafe { tlb::flush_pcid(InvPcidCommand::AllExceptGlobal) });
+}
+
 pub fn run(a: &Args, rep: &mut Report) {
     trapemu::install();
     let mut r = Rng::derive(a.seed, "c11", a.shard);
+    for _ in 0..8 {
+        register_pressure(rep, &mut r);
+    }
     // all 4096 PCIDs x 4 kinds (sharded)
     for pcid in 0..4096u16 {
         if (pcid as u64) % a.nshards != a.shard {
